@@ -50,19 +50,24 @@ Proof.
 Qed.
 
 (* what IS dropped: empty datagrams, length/framing errors, records whose header does not decode *)
-Theorem undecodable_dropped_partial W full s d :
-  undecodable d -> d <> DOtherErr -> recv_dgram W full s d = (s, []).
+Theorem undecodable_dropped_partial W full neg s d :
+  undecodable d -> d <> DOtherErr -> (d = DLenErr -> neg = false) -> recv_dgram W full neg s d = (s, []).
 Proof.
-  intros Hu Hd. unfold recv_dgram. destruct (r_closed s); [reflexivity|].
-  destruct d as [ | | | rs]; try reflexivity; [congruence|]. now apply recv_recs_bad.
+  intros Hu Hd Hn. unfold recv_dgram. destruct (r_closed s); [reflexivity|].
+  destruct d as [ | | | rs]; try reflexivity; [now rewrite (Hn eq_refl)|congruence|]. now apply recv_recs_bad.
 Qed.
 
 (* the ideal statement "undecodable => no effect" is false for the code as it is: a datagram whose
    framing error is not ErrInvalidPacketLength surfaces as an error (handshake abort / Read error) *)
-Theorem undecodable_dropped_refuted W full s :
+Theorem undecodable_dropped_refuted W full neg s :
   r_closed s = false ->
-  exists d, undecodable d /\ recv_dgram W full s d = (s, [OErr]).
+  exists d, undecodable d /\ recv_dgram W full neg s d = (s, [OErr]).
 Proof. intro Hc. exists DOtherErr. split; [exact I|]. unfold recv_dgram. now rewrite Hc. Qed.
+
+(* in the dual-stack version negotiation loop even a length/framing error ends the handshake *)
+Theorem undecodable_negotiating_refuted W full s :
+  r_closed s = false -> recv_dgram W full true s DLenErr = (s, [OErr]).
+Proof. intro Hc. unfold recv_dgram. now rewrite Hc. Qed.
 
 (* ... and so is "an unprotected record whose content does not decode has no effect": it is answered
    with a fatal decode_error alert and surfaces as an error *)
